@@ -95,6 +95,20 @@ Section REAL.
     - intros t x Ht Hx. apply valid_ident_ident_like, real_strop_valid. apply (proj2 (Hok t Ht)); assumption.
   Qed.
 
+  (* EVERY stem string, real stropper: a run that does not raise (stem validated) writes only below the output directory *)
+  Theorem real_targets_inside_no_raise perm types r g chk :
+    (forall k, Permutation (perm k) k) -> NoDup types -> one_root r types -> types <> [] -> dsdl_names_ok types ->
+    valid_ext ext ->
+    build_checked true chk (real_strop l) same es ext stem outdir perm types <> None ->
+    forall q, In q (c11_targets (real_strop l) es ext stem outdir g perm types) ->
+      exists rel, q = outdir ++ rel /\ Forall safe_comp rel /\ forall st, resolve st rel = rev rel ++ st.
+  Proof.
+    intros Hp Hnd Hr Hne Hok Hext Hrun.
+    apply (targets_inside_no_raise (real_strop l) es ext stem outdir perm Hp types r Hnd Hr Hne chk g); try assumption.
+    - apply real_names_ident_like; assumption.
+    - intros t x Ht Hx. apply valid_ident_ident_like, real_strop_valid. apply (proj2 (Hok t Ht)); assumption.
+  Qed.
+
   Lemma map_eq_Forall2 {A B} (f : A -> B) l1 l2 : map f l1 = map f l2 <-> Forall2 (fun a b => f a = f b) l1 l2.
   Proof.
     split.
